@@ -95,13 +95,16 @@ static inline uint64_t rt_bits(const RegisterTable *t, RegisterHandle i)
   return SPEC_DECODE(w, n, be);
 }
 
-/* cell (word k of register i's area) lies in that area but is not one of the
- * register's own words */
-static inline bool rt_cell_beside(const RegisterTable *t, RegisterHandle i, const RegisterAtom *cell, size_t k)
+/* cell is not one of the words of register i (it may lie anywhere: in the same
+ * area, in another object).  Written on the integer images of the pointers so
+ * that the same text is meaningful natively and in the verifier (where the
+ * image is object number and offset: cells of other objects are outside). */
+static inline bool rt_cell_outside(const RegisterTable *t, RegisterHandle i, const RegisterAtom *cell)
 {
-  const RegisterEntry e = t->entry[i];
-  const RegisterArea a = *e.area;
-  return k < a.size && cell == a.mem + k && (k < e.offset || k - e.offset >= SPEC_REG_WORDS(e.type));
+  const RegisterEntry *e = t->entry + i;
+  const RegisterAtom *w = e->area->mem + e->offset;
+  const RegisterType ty = e->type;
+  return !((uintptr_t)cell - (uintptr_t)w < (uintptr_t)(SPEC_REG_WORDS(ty) * sizeof(RegisterAtom)));
 }
 
 /* ---- serialisers / deserialisers -------------------------------------- */
@@ -215,6 +218,30 @@ __CPROVER_ensures(IMPLIES(g_j < a->size && (g_j < offset || g_j - offset >= n),
 
 /* ---- typed set ------------------------------------------------------------ */
 
+/* Inv(i): a register constrained by min/max/range/callback holds a value that
+ * decodes and satisfies its constraint (table in normal operation: not during
+ * initialisation) */
+static inline bool rt_constrained(const RegisterTable *t, RegisterHandle i)
+{
+  const RegisterValidatorType c = t->entry[i].check.type;
+  return c == REGV_TYPE_MIN || c == REGV_TYPE_MAX || c == REGV_TYPE_RANGE || c == REGV_TYPE_CALLBACK;
+}
+
+/* the pattern `bits` read as register i's type decodes and is valid for it */
+static inline bool rt_bits_acceptable(const RegisterTable *t, RegisterHandle i, uint64_t bits)
+{
+  const RegisterEntry *e = t->entry + i;
+  RegisterValueU u;
+  u.u64 = bits;
+  return SPEC_FLOAT_OK(e->type, u) && SPEC_VALID(e, e->type, u, false);
+}
+
+static inline bool rt_inv(const RegisterTable *t, RegisterHandle i)
+{
+  return !rt_constrained(t, i) || rt_bits_acceptable(t, i, rt_bits(t, i));
+}
+
+
 /* Reasons for which the statement says a typed set is refused.  Several may
  * apply at once; the statement fixes no precedence among the last three, so
  * the contract only requires the reported code to name ONE reason that
@@ -278,9 +305,11 @@ __CPROVER_assigns(st_wr_verdict; \
 __CPROVER_ensures(rt_set_code_ok(t, idx, v, wv, __CPROVER_old(st_wr_verdict), __CPROVER_return_value.code)) \
 /* success: the backing words hold exactly the value in the table's byte order */ \
 __CPROVER_ensures(IMPLIES(__CPROVER_return_value.code == REG_ACCESS_SUCCESS, rt_holds(t, idx, RT_VBITS(t, idx, v)))) \
+/* C05: the register a checked set wrote decodes and satisfies its constraint */ \
+__CPROVER_ensures(IMPLIES(__CPROVER_return_value.code == REG_ACCESS_SUCCESS && (wv), rt_inv(t, idx))) \
 /* a refused set leaves every word unchanged; a successful one every other word */ \
 __CPROVER_ensures(IMPLIES(__CPROVER_return_value.code != REG_ACCESS_SUCCESS, *g_cell == __CPROVER_old(*g_cell))) \
-__CPROVER_ensures(IMPLIES(__CPROVER_return_value.code == REG_ACCESS_SUCCESS && rt_cell_beside(t, idx, g_cell, g_k), \
+__CPROVER_ensures(IMPLIES(__CPROVER_return_value.code == REG_ACCESS_SUCCESS && rt_cell_outside(t, idx, g_cell), \
     *g_cell == __CPROVER_old(*g_cell))) \
 __CPROVER_ensures(t->flags == __CPROVER_old(t->flags) && t->entries == __CPROVER_old(t->entries) \
     && t->entry == __CPROVER_old(t->entry))
@@ -333,29 +362,6 @@ __CPROVER_ensures(t->flags == __CPROVER_old(t->flags) && t->entries == __CPROVER
 /* ---- C05: invariant, bit operations, sanitise ---------------------------------- */
 
 extern uint64_t g_old_bits;      /* ghost: the pattern a register holds at entry */
-
-/* Inv(i): a register constrained by min/max/range/callback holds a value that
- * decodes and satisfies its constraint (table in normal operation: not during
- * initialisation) */
-static inline bool rt_constrained(const RegisterTable *t, RegisterHandle i)
-{
-  const RegisterValidatorType c = t->entry[i].check.type;
-  return c == REGV_TYPE_MIN || c == REGV_TYPE_MAX || c == REGV_TYPE_RANGE || c == REGV_TYPE_CALLBACK;
-}
-
-/* the pattern `bits` read as register i's type decodes and is valid for it */
-static inline bool rt_bits_acceptable(const RegisterTable *t, RegisterHandle i, uint64_t bits)
-{
-  const RegisterEntry *e = t->entry + i;
-  RegisterValueU u;
-  u.u64 = bits;
-  return SPEC_FLOAT_OK(e->type, u) && SPEC_VALID(e, e->type, u, false);
-}
-
-static inline bool rt_inv(const RegisterTable *t, RegisterHandle i)
-{
-  return !rt_constrained(t, i) || rt_bits_acceptable(t, i, rt_bits(t, i));
-}
 
 /* registers i and j do not share storage words (what register_init
  * establishes for any two registers: distinct areas have distinct storage,
@@ -420,9 +426,9 @@ __CPROVER_assigns(st_rd_verdict, st_wr_verdict; \
 __CPROVER_ensures(rt_bitop_code_ok(t, idx, v, SET, __CPROVER_old(st_rd_verdict), __CPROVER_old(st_wr_verdict), \
     g_old_bits, __CPROVER_return_value.code)) \
 __CPROVER_ensures(IMPLIES(__CPROVER_return_value.code == REG_ACCESS_SUCCESS, \
-    rt_holds(t, idx, rt_bitop_new(t, idx, v, SET, g_old_bits)))) \
+    rt_holds(t, idx, rt_bitop_new(t, idx, v, SET, g_old_bits)) && rt_inv(t, idx))) \
 __CPROVER_ensures(IMPLIES(__CPROVER_return_value.code != REG_ACCESS_SUCCESS, *g_cell == __CPROVER_old(*g_cell))) \
-__CPROVER_ensures(IMPLIES(__CPROVER_return_value.code == REG_ACCESS_SUCCESS && rt_cell_beside(t, idx, g_cell, g_k), \
+__CPROVER_ensures(IMPLIES(__CPROVER_return_value.code == REG_ACCESS_SUCCESS && rt_cell_outside(t, idx, g_cell), \
     *g_cell == __CPROVER_old(*g_cell))) \
 __CPROVER_ensures(t->flags == __CPROVER_old(t->flags) && t->entries == __CPROVER_old(t->entries) \
     && t->entry == __CPROVER_old(t->entry))
@@ -433,6 +439,84 @@ RT_BITOP_CONTRACT(t, idx, v, true)
 
 RegisterAccess register_bit_clear(RegisterTable *t, const RegisterHandle idx, const RegisterValue v)
 RT_BITOP_CONTRACT(t, idx, v, false)
+;
+
+/* ---- sanitise (tier B: tables of at most RT_SAN_EMAX registers) ------------------ */
+
+#ifndef RT_SAN_EMAX
+#define RT_SAN_EMAX 2
+#endif
+#if RT_SAN_EMAX == 1
+#define RT_SAN_ALL(P) (P(0u))
+#define RT_SAN_PAIRS(P) (1)
+#elif RT_SAN_EMAX == 2
+#define RT_SAN_ALL(P) (P(0u) && P(1u))
+#define RT_SAN_PAIRS(P) (P(0u, 1u))
+#else
+#define RT_SAN_ALL(P) (P(0u) && P(1u) && P(2u))
+#define RT_SAN_PAIRS(P) (P(0u, 1u) && P(0u, 2u) && P(1u, 2u))
+#endif
+
+extern RegisterHandle g_reg;     /* ghost: an arbitrary register handle */
+
+/* every register is well formed, readable and writable through a known
+ * callback, constrained by none/min/max/range/callback (as in the statement),
+ * its flags are writable, and no two registers share storage words */
+#define RT_SAN_ENTRY_OK(i) \
+  IMPLIES((i) < t->entries, RT_ENTRY_OK(t, i) && RT_AREA_W_OK(t, i) && RT_AREA_R_OK(t, i) \
+    && t->entry[i].check.type != REGV_TYPE_FAIL \
+    && __CPROVER_rw_ok(&t->entry[i].flags, sizeof(uint16_t)))
+#define RT_SAN_PAIR_OK(i, j) IMPLIES((j) < t->entries, rt_disjoint(t, i, j))
+
+/* register i is memory backed and its default is acceptable: then nothing can
+ * make sanitise fail at it */
+static inline bool rt_san_cannot_fail(const RegisterTable *t, RegisterHandle i)
+{
+  const RegisterEntry *e = t->entry + i;
+  return e->area->read == reg_mem_read && e->area->write == reg_mem_write
+      && rt_bits_acceptable(t, i, SPEC_BITS(e->type, e->default_value));
+}
+#define RT_SAN_CANNOT_FAIL(i) IMPLIES((i) < t->entries, rt_san_cannot_fail(t, i))
+#define RT_SAN_CELL_OUTSIDE(i) IMPLIES((i) < t->entries, rt_cell_outside(t, i, g_cell))
+
+/* width-conditional assigns targets of register i and its flags */
+#define RT_SAN_ASSIGNS(i) \
+    RT_INIT(t) && (i) < t->entries: t->entry[i].flags; \
+    RT_INIT(t) && (i) < t->entries && SPEC_REG_W1(RT_TY(t, i)): __CPROVER_object_upto(RT_W(t, i), 1u * sizeof(RegisterAtom)); \
+    RT_INIT(t) && (i) < t->entries && SPEC_REG_W2(RT_TY(t, i)): __CPROVER_object_upto(RT_W(t, i), 2u * sizeof(RegisterAtom)); \
+    RT_INIT(t) && (i) < t->entries && SPEC_REG_W4(RT_TY(t, i)): __CPROVER_object_upto(RT_W(t, i), 4u * sizeof(RegisterAtom))
+#if RT_SAN_EMAX == 1
+#define RT_SAN_ASSIGNS_ALL RT_SAN_ASSIGNS(0u)
+#elif RT_SAN_EMAX == 2
+#define RT_SAN_ASSIGNS_ALL RT_SAN_ASSIGNS(0u); RT_SAN_ASSIGNS(1u)
+#else
+#define RT_SAN_ASSIGNS_ALL RT_SAN_ASSIGNS(0u); RT_SAN_ASSIGNS(1u); RT_SAN_ASSIGNS(2u)
+#endif
+
+RegisterAccess register_sanitise(RegisterTable *t)
+__CPROVER_requires(__CPROVER_r_ok(t, sizeof(RegisterTable)))
+__CPROVER_requires(__CPROVER_rw_ok(g_cell, sizeof(RegisterAtom)))
+__CPROVER_requires(IMPLIES(RT_INIT(t), t->entries <= RT_SAN_EMAX && RT_SAN_ALL(RT_SAN_ENTRY_OK) && RT_SAN_PAIRS(RT_SAN_PAIR_OK)))
+/* nothing is required of the CONTENT of the storage: arbitrary corruption */
+__CPROVER_requires(IMPLIES(RT_INIT(t) && g_reg < t->entries, g_old_bits == rt_bits(t, g_reg)))
+__CPROVER_assigns(st_rd_verdict, st_wr_verdict; RT_SAN_ASSIGNS_ALL)
+__CPROVER_ensures(IMPLIES(!RT_INIT(t),
+    __CPROVER_return_value.code == REG_ACCESS_UNINITIALISED && *g_cell == __CPROVER_old(*g_cell)))
+/* success: a register whose content decoded and met its constraint keeps its
+ * value, any other is reset to its default; all touched marks are cleared;
+ * hence every register now decodes and satisfies its constraint */
+__CPROVER_ensures(IMPLIES(RT_INIT(t) && __CPROVER_return_value.code == REG_ACCESS_SUCCESS && g_reg < t->entries,
+    (rt_bits_acceptable(t, g_reg, g_old_bits)
+       ? rt_bits(t, g_reg) == g_old_bits
+       : rt_holds(t, g_reg, SPEC_BITS(RT_TY(t, g_reg), t->entry[g_reg].default_value)))
+    && (t->entry[g_reg].flags & REG_EF_TOUCHED) == 0
+    && rt_bits_acceptable(t, g_reg, rt_bits(t, g_reg))))
+/* it can only fail where a default cannot be loaded or a device refuses */
+__CPROVER_ensures(IMPLIES(RT_INIT(t) && RT_SAN_ALL(RT_SAN_CANNOT_FAIL), __CPROVER_return_value.code == REG_ACCESS_SUCCESS))
+/* words that belong to no register are never touched */
+__CPROVER_ensures(IMPLIES(RT_INIT(t) && RT_SAN_ALL(RT_SAN_CELL_OUTSIDE), *g_cell == __CPROVER_old(*g_cell)))
+__CPROVER_ensures(t->flags == __CPROVER_old(t->flags) && t->entries == __CPROVER_old(t->entries)
+    && t->entry == __CPROVER_old(t->entry))
 ;
 
 #endif /* CONTRACTS_REGISTERS_TYPED_H */
